@@ -686,7 +686,45 @@ def rule_own_text_parsed(ctx):
     ctx.floor("C02.i execute paths", n, 1)
 
 
+def rule_bookkeeping_names_verbatim(ctx):
+    """C02.j: names reach the side tables as the folding stage left them — unquoted ones already upper-case, quoted ones as
+    written: the bookkeeping writers apply no case transformation of their own (a quoted `"lower"` would be filed under LOWER,
+    where the metadata views never look)."""
+    from ..interp import Hooks, explore
+    from ..values import Lst, Tup
+    from .c05 import _prov_nodes
+
+    prog = ctx.prog
+    m = prog.modules.get("info_schema")
+    n = 0
+    for wfn, args in (("insert_table_comment_sql", ["CAT", "SCH", "TBL", "CMT"]),
+                      ("insert_text_lengths_sql", ["CAT", "SCH", "TBL", Lst([Tup([Sym("COL", typ="str", truthy=True), Sym("SIZE", typ="int", truthy=True)])])])):
+        if m is None or not prog.has_fn("info_schema", wfn):
+            continue
+
+        def run(I, wfn=wfn, args=args):
+            vals = [a if not isinstance(a, str) else Sym(a, typ="str", truthy=True) for a in args]
+            return I.call(I.global_lookup("info_schema", wfn), vals, {}, None)
+
+        for p in explore(prog, Hooks, run, max_paths=8):
+            if p.outcome != "return":
+                continue
+            n += 1
+            folded = sorted({x.tag for x in _prov_nodes(p.value) if isinstance(x, Sym) and x.origin and len(x.origin) >= 2
+                             and x.origin[0] in ("upper", "lower", "casefold", "title", "capitalize", "swapcase")
+                             and tagof(x.origin[1]) in ("CAT", "SCH", "TBL", "COL")})
+            fn_ = prog.fn("info_schema", wfn)
+            ctx.ob("C02.j", f"{wfn}: names are stored as given", not folded, m.loc(fn_), str(folded))
+            if folded:
+                ctx.violation("C02.j", "info_schema", wfn, f"names case-transformed when stored: {folded}", m.loc(fn_),
+                              f"{wfn} stores {folded}: a double-quoted name with lower-case letters is filed under another spelling than the one "
+                              f"information_schema reports, so its comment / declared length is never found again")
+            break
+    ctx.floor("C02.j bookkeeping writers", n, 2)
+
+
 RULES = [
+    ("C02.j", rule_bookkeeping_names_verbatim, ("quick", "thorough")),
     ("C02.i", rule_own_text_parsed, ("quick", "thorough")),
     ("C02.h", rule_names_in_literals, ("quick", "thorough")),
     ("C02.a", rule_fold_first, ("quick", "thorough")),
